@@ -34,12 +34,13 @@ def mc_module(fam):
         f.pop("frag")
         return "[" + ", ".join("%s |-> %s" % (k, tla_val(v)) for k, v in f.items()) + "]"
     cat = fam["cat"]
-    return {"MCCore.tla": "---- MODULE MCCore ----\nEXTENDS Core\nMCPeers == %s\nMCCat == %s\nMCAttr == (%s)\nMCEnabled == %s\n====\n" % (
-        tla_val(set(fam["peers"])), tla_val(set(cat)), " @@ ".join('"%s" :> %s' % (n, rec(a)) for n, a in cat.items()), tla_val(set(fam["enabled"])))}
+    return {"MCCore.tla": "---- MODULE MCCore ----\nEXTENDS Core\nMCPeers == %s\nMCCat == %s\nMCAttr == (%s)\nMCEnabled == %s\nMCSensors == %s\n====\n" % (
+        tla_val(set(fam["peers"])), tla_val(set(cat)), " @@ ".join('"%s" :> %s' % (n, rec(a)) for n, a in cat.items()), tla_val(set(fam["enabled"])),
+        tla_val(set(p for p in fam["peers"] if p.startswith("s"))))}
 
 
 def cfg_text(algo, budget, steps, mode, view=True):
-    t = ('SPECIFICATION Spec\nCONSTANTS\n Peers <- MCPeers\n Cat <- MCCat\n Attr <- MCAttr\n Algo = "%s"\n Budget = %d\n Enabled <- MCEnabled\n'
+    t = ('SPECIFICATION Spec\nCONSTANTS\n Peers <- MCPeers\n Cat <- MCCat\n Attr <- MCAttr\n Algo = "%s"\n Sensors <- MCSensors\n Budget = %d\n Enabled <- MCEnabled\n'
          ' MaxSteps = %d\n EmitMode = "%s"\nINVARIANTS NoSilentLoss CopiesInRange Conservation DistinctIds Emit\n' % (algo, budget, steps, mode))
     if view:
         t += "VIEW SView\n"
@@ -87,7 +88,8 @@ def run_families(chk, prop, plans, tier, max_hist=None):
         cap = pl.get("cap", max_hist)
         if cap and len(uniq) > cap:
             # prefer the longest behaviours (they contain the shorter ones as prefixes), then a seeded sample
-            uniq.sort(key=lambda h: -len(h))
+            score = pl.get("prefer", lambda h: 0)
+            uniq.sort(key=lambda h: (-score(h), -len(h)))
             head = uniq[:cap // 2]
             rest = uniq[cap // 2:]
             rng.shuffle(rest)
